@@ -22,7 +22,7 @@ type FileSpec struct {
 	// import spellings
 	CtxAlias string `json:"ctxalias,omitempty"` // alias for "context" ("" = plain)
 	CffAlias string `json:"cffalias,omitempty"` // alias for go.uber.org/cff
-	Layout   int    `json:"layout,omitempty"`   // bit 0: CRLF line endings, bit 1: no newline at the end of the file, bit 2: //go:generate and a doc comment between the constraint and the package clause, bit 3: no blank line between a //go:build line and the package clause, bit 4: //line directives around the package clause (the file comes from a preprocessor), bit 5: the file starts with a UTF-8 byte order mark
+	Layout   int    `json:"layout,omitempty"`   // bit 0: CRLF line endings, bit 1: no newline at the end of the file, bit 2: //go:generate and a doc comment between the constraint and the package clause, bit 3: no blank line between a //go:build line and the package clause, bit 4: //line directives around the package clause (the file comes from a preprocessor), bit 5: the file starts with a UTF-8 byte order mark, bit 6: a line comment containing "/*" above the constraint
 	OddImp   int    `json:"oddimp,omitempty"`   // 1: imports vcase/odd/v2 (package odd), 2: math/rand/v2 (package rand), 3: vcase/twin/v3 (package debug), all without an explicit name
 	TimeImp  string `json:"timeimp,omitempty"`  // "", "plain" (imports time), "alias" (tm "time"), "collide" (another package imported as time)
 }
@@ -197,6 +197,11 @@ func (pr *progRender) wrapz(expr, zero string) string {
 	}
 	k := pr.argK
 	pr.argK++
+	if strings.HasPrefix(expr, "hold.M_") {
+		// a method value whose RECEIVER is the logged expression: the argument
+		// is then a method value with a call as its receiver, not a call
+		return fmt.Sprintf("rt.Arg(env, %d, hold).%s", k, strings.TrimPrefix(expr, "hold."))
+	}
 	return fmt.Sprintf("rt.Arg(env, %d, %s)", k, expr)
 }
 
@@ -869,6 +874,11 @@ func RenderFileAs(f *FileSpec, pkgAuto bool, regSuffix string) (src, side string
 	needExt4 := reExt4.MatchString(all)
 	side = strings.Join(decls, "\n")
 	var x w
+	if f.Layout&64 != 0 {
+		// a line comment that contains the opening of a general comment
+		x.f("// Generated from the templates under ./*/flows by hand.")
+		x.f("")
+	}
 	x.sb.WriteString(f.Header)
 	if f.Layout&8 == 0 || f.Layout&4 != 0 || strings.Contains(f.Header, "+build") {
 		x.f("")
